@@ -970,6 +970,9 @@ def r152(ctx, repo):
            "point_in_poly does not hand (p, poly) to points_in_poly as "
            "(points, verts)", node=pp, label="point_in_poly routine")
 
+    _copy_inversion(ctx, repo)
+    _normalised_vertices(ctx, repo)
+
     # Filter.update feeds axes[0] as x
     upd = repo.func(FILT, "Filter.update")
     calls = [c for c in find_calls(upd, attr="filter")
@@ -1073,6 +1076,112 @@ def _stacked(e):
     if not ok:
         return None
     return arg.elts[0], arg.elts[1], cast
+
+
+def _copy_inversion(ctx, repo):
+    """copy(invert) yields a filter whose inversion state is
+    self.inverted XOR invert – executed on the four combinations"""
+    cp = repo.func(POLY, "PolygonFilter.copy")
+    par = params_of(cp)
+    if len(par) != 2:
+        raise AnalysisError(f"PolygonFilter.copy: parameters {par}")
+    INVP = par[1]
+    rets = [n for n in walk(cp) if isinstance(n, ast.Return)]
+    if len(rets) != 1 or cp.body[-1] is not rets[0]:
+        raise AnalysisError("PolygonFilter.copy: expected a single final "
+                            "return")
+    rv = deref(cp, rets[0].value)
+    if not (isinstance(rv, ast.Call) and (
+            call_name(rv) in ("PolygonFilter", "self.__class__")
+            or txt(rv.func) == "type(self)")):
+        raise AnalysisError("PolygonFilter.copy: the value returned is not a "
+                            "new PolygonFilter")
+    kws = {kw.arg: kw.value for kw in rv.keywords if kw.arg}
+    if rv.args or "inverted" not in kws:
+        raise AnalysisError("PolygonFilter.copy: constructor arguments not "
+                            "understood")
+    body = [x for x in cp.body[:-1] if not (
+        isinstance(x, ast.Expr) and isinstance(x.value, ast.Constant))]
+    if isinstance(rets[0].value, ast.Name):
+        body = [x for x in body if not (
+            isinstance(x, ast.Assign) and txt(x.targets[0]) == txt(
+                rets[0].value))]
+    bad = []
+    for a in (False, True):
+        for b in (False, True):
+            env = {"self.inverted": a, INVP: b}
+            try:
+                _exec(body, env)
+                got = ev(kws["inverted"], env)
+            except _NoEval as e:
+                raise AnalysisError(f"PolygonFilter.copy: {e}")
+            if bool(got) != (a != b):
+                bad.append((a, b, bool(got)))
+    ctx.ob("R15.2", not bad,
+           "copy(invert) passes inverted = self.inverted XOR invert "
+           "(executed on the four combinations)" if not bad else
+           f"copy(invert={bad[0][1]}) of a filter with inverted="
+           f"{bad[0][0]} has inverted={bad[0][2]}: the inverted copy is not "
+           "the complement of the original", node=rets[0],
+           label="copy inversion")
+    want = {"axes": "self.axes", "points": "self.points",
+            "name": "self.name"}
+    have = {k: txt(deref(cp, v)) for k, v in kws.items() if k in want}
+    ctx.ob("R15.2", have == want,
+           "the copy takes axes, points and name of the original"
+           if have == want else
+           f"the copy is constructed with {have}, expected {want}",
+           node=rets[0], label="copy geometry", nontrivial=False)
+
+
+def _normalised_vertices(ctx, repo):
+    """the vertices are only read through the `points` property (always a
+    float array); the raw backing field may hold nested lists (setter,
+    __setstate__) whose byte representation / shape differ"""
+    cls = repo.cls(POLY, "PolygonFilter")
+    getter = setter = None
+    for f in cls.body:
+        if isinstance(f, ast.FunctionDef) and f.name == "points":
+            decs = [txt(d) for d in f.decorator_list]
+            if "property" in decs:
+                getter = f
+            elif "points.setter" in decs:
+                setter = f
+    if getter is None or setter is None:
+        raise AnalysisError("PolygonFilter.points: property / setter lost")
+    stored = [n.targets[0].attr for n in walk(setter)
+              if isinstance(n, ast.Assign) and is_self_attr(n.targets[0])]
+    if len(stored) != 1:
+        raise AnalysisError("PolygonFilter.points setter: backing field")
+    raw = stored[0]
+    rets = [n for n in walk(getter) if isinstance(n, ast.Return)]
+    normal = len(rets) == 1 and isinstance(rets[0].value, ast.Call) and (
+        call_name(rets[0].value) or "").split(".")[-1] in (
+        "array", "asarray", "ascontiguousarray") and raw in txt(
+        rets[0].value)
+    ctx.ob("R15.2", normal,
+           f"the `points` property returns the backing field `{raw}` as an "
+           "array" if normal else
+           "the `points` property no longer normalises the stored vertices "
+           "to an array", node=getter, label="points property normalises",
+           nontrivial=False)
+    leaks = []
+    for f in cls.body:
+        if not isinstance(f, ast.FunctionDef) or f in (getter, setter):
+            continue
+        for n in walk(f):
+            if is_self_attr(n, raw) and isinstance(n.ctx, ast.Load):
+                leaks.append((f, n))
+    ctx.ob("R15.2", not leaks,
+           f"no method reads the raw field `{raw}`: hash, filter, save and "
+           "__getstate__ see the normalised vertex array" if not leaks else
+           f"`{leaks[0][0].name}` reads the raw field `self.{raw}` instead "
+           "of the `points` property: lists assigned through the setter / "
+           "__setstate__ are not normalised (e.g. the hash of nested lists "
+           "concatenates the numbers, different polygons collide and the "
+           "filter cache keeps the old classification)",
+           node=leaks[0][1] if leaks else cls,
+           key=f"{POLY}::PolygonFilter::raw vertices not read")
 
 
 def single_assign_loose(func, name):
@@ -1708,7 +1817,8 @@ def run(ctx):
              "cyclic edge enumeration, parity", minimum=7)
     ctx.rule("R15.2", "x/y columns and counts reach the compiled routine "
              "consistently through every wrapper in a float64 buffer; "
-             "inversion iff self.inverted", minimum=17)
+             "inversion iff self.inverted (filter and copy); vertices read "
+             "through the normalising property", minimum=21)
     ctx.rule("R15.3", "save/_load agree on keys, attribute mapping, header "
              "and index parsing, first-'=' split; >= 17 significant digits",
              minimum=25)
@@ -1809,6 +1919,17 @@ MUTANTS = [
       "        points[:, 0] = datax\n        points[:, 1] = datay\n",
       "        points = np.column_stack([datax, datay]).astype(np.float32)\n"
       ), "R15.2"),
+    ("inverted copy of an inverted filter stays inverted (seeded C15_4)",
+     POLY, ("        if invert:\n            inverted = not self.inverted\n        else:\n            inverted = self.inverted\n",
+            "        inverted = self.inverted or invert\n"), "R15.2"),
+    ("copy ignores the invert request", POLY,
+     ("        if invert:\n            inverted = not self.inverted\n        else:\n            inverted = self.inverted\n", "        inverted = self.inverted\n"), "R15.2"),
+    ("hash digests the raw vertex field (seeded C15_5)", POLY,
+     ("return hashobj([self.axes, self.points, self.inverted])",
+      "return hashobj([self.axes, self._points, self.inverted])"), "R15.2"),
+    ("filter evaluates the raw vertex field", POLY,
+     ("f = points_in_poly(points=points, verts=self.points)",
+      "f = points_in_poly(points=points, verts=self._points)"), "R15.2"),
     ("inversion result discarded", POLY,
      ("            np.invert(f, f)\n", "            np.invert(f)\n"),
      "R15.2"),
@@ -1891,6 +2012,18 @@ TWINS = [
       "        points[:, 0] = datax\n        points[:, 1] = datay\n",
       "        points = np.column_stack([datax, datay]).astype(np.float64)\n"
       )),
+    ("copy inversion as an inequality", POLY,
+     ("        if invert:\n            inverted = not self.inverted\n        else:\n            inverted = self.inverted\n", "        inverted = self.inverted != invert\n")),
+    ("copy inversion as a conditional expression", POLY,
+     ("        if invert:\n            inverted = not self.inverted\n        else:\n            inverted = self.inverted\n"
+      "\n        return PolygonFilter(axes=self.axes,\n"
+      "                             points=self.points,\n"
+      "                             name=self.name,\n"
+      "                             inverted=inverted)",
+      "        return PolygonFilter(\n"
+      "            axes=self.axes, points=self.points, name=self.name,\n"
+      "            inverted=(not self.inverted) if invert else "
+      "self.inverted)")),
     ("filter returns the complement by expression", POLY,
      ("            np.invert(f, f)\n", "            f = ~f\n")),
     ("save with f-strings", POLY,
